@@ -7,7 +7,11 @@ FUNCTIONS = ['uxarray.grid.connectivity._replace_fill_values',
     'uxarray.io._mpas._parse_face_nodes@dual',
     'uxarray.grid.coordinates._set_desired_longitude_range',
     'uxarray.grid.grid.Grid.to_polycollection',
-    'uxarray.grid.grid.Grid.copy']
+    'uxarray.grid.grid.Grid.copy',
+    'uxarray.grid.coordinates._xyz_to_lonlat_rad@arrays',
+    'uxarray.grid.coordinates._xyz_to_lonlat_deg@arrays',
+    'uxarray.grid.coordinates._normalize_xyz@arrays',
+    'uxarray.grid.coordinates._lonlat_rad_to_xyz@arrays']
 STANDINS = ["sharing", "explicit_spec"]
 ASSUMPTIONS = []
 EXPLANATION = ""
